@@ -79,15 +79,21 @@ Inductive pres :=
    client_id=id' & client_secret=s (s = SEmpty: no secret), or as iss = sub = id' of a client
    assertion signed with X's key (no secret sent).  With the jwt-bearer grant the grant
    assertion is issued by id' as well. *)
-| PNearId (sl : idslot) (s : seck).
+| PNearId (sl : idslot) (s : seck)
+(* a client assertion issued (iss) and signed by X whose subject (sub) is the second client Y; the grant
+   artefact is Y's.  The client that authenticates is the one whose key signed: X. *)
+| PXSub (v : victim).
 
 Record cfg := mkCfg { f_post : bool; f_pkjwt : bool; f_refresh : bool;   (* op.Config flags *)
                       c_cc : bool; c_te : bool; c_dev : bool;            (* optional storage capabilities *)
-                      c_jp : bool }.   (* the provider object handed to NewLegacyServer has the optional method
+                      c_jp : bool;     (* the provider object handed to NewLegacyServer has the optional method
                                           JWTProfileVerifier (interfaces ClientJWTProfile / JWTAuthorizationGrantExchanger,
                                           which the LegacyServer type-asserts); *op.Provider has it, a wrapper that embeds
                                           the OpenIDProvider interface does not.  The Provider's own router is built by
                                           the provider itself and always has it. *)
+                      c_sub : bool }.  (* the JWT profile verifier the provider hands out (JWTProfileVerifier, overridden by
+                                          a wrapper around the provider) is built with a custom op.SubjectCheck that lets
+                                          iss <> sub pass (delegation); default: SubjectIsIssuer *)
 
 Record reg := mkReg { r_known : bool;          (* the client id is registered at all *)
                       r_meth : amethod; r_app : apptype;
@@ -207,8 +213,11 @@ Definition seen (src : source) (pl : place) (p : pres) : pres :=
        | PBoth b _ => PBasic b false
        | _ => PNone
        end.
-Definition eff_pres (p : pres) : pres :=
+Definition eff_pres (c : cfg) (p : pres) : pres :=
   match p with
+  (* VerifyJWTAssertion: CheckSubject runs before the signature check; SubjectIsIssuer refuses the assertion,
+     a permissive check lets it through and AuthorizePrivateJWTKey / ClientJWTAuth take the ISSUER *)
+  | PXSub _ => PAssert (if c_sub c then AOk else AWrongKey)
   | PXBasic _ => PBasic SRight false
   | PXAssert _ => PAssert AOk
   | PXPost _ => PBasic SWrong false
@@ -220,7 +229,7 @@ Definition eff_pres (p : pres) : pres :=
   end.
 (* the artefact belongs to the client the request names *)
 Definition own_artefact (p : pres) : bool :=
-  match p with PXBasic _ | PXAssert _ | PNearId _ _ => false | _ => true end.
+  match p with PXBasic _ | PXAssert _ | PNearId _ _ | PXSub _ => false | _ => true end.
 
 (* ---------------- what the parsers see *)
 
